@@ -22,6 +22,12 @@ Proof.
   unfold classified_keys in Hk. apply in_map_iff in Hk as (r & <- & Hr). eauto.
 Qed.
 
+(* the rows classified as findings are the six sites of the recorded findings F30 (Sign on a
+   malformed signatures member, 2 rows) and F31 (case-variant member names, 4 rows); a further
+   finding row has to be recorded deliberately *)
+Theorem findings_accounted : length findings = 6%nat.
+Proof. vm_compute. reflexivity. Qed.
+
 Theorem version_table_complete : version_table_complete_b = true.
 Proof. vm_compute. reflexivity. Qed.
 
@@ -69,6 +75,7 @@ Proof. reflexivity. Qed.
 Print Assumptions all_sites_classified.
 Print Assumptions no_stale_classification.
 Print Assumptions every_current_site_has_a_class.
+Print Assumptions findings_accounted.
 Print Assumptions version_table_complete.
 Print Assumptions no_version_field_is_nil.
 Print Assumptions split_id_total.
